@@ -575,6 +575,83 @@ def replay_multimode(kernel, beta, nu, K, mode, m, label):
                     f"min(1, joint density ratio with the walker's own mode) is {exact:.6g} ({label})"}
 
 
+def make_acceptance_range(lmax=10 ** 4):
+    """magnitudes in the Metropolis ratio of the real RWM step: log-likelihoods of any size up to lmax, any beta in (0,1]. With the
+    range abstraction of the double-precision exponential (exactly 0 below -745.1) a move whose acceptance probability exp(beta*dlogL)
+    is representable must not be given probability 0, and the probability is never above 1 / never NaN."""
+    from vf.props.c04 import RangeFloatOps
+
+    def harness(ctx: PathCtx):
+        u = [real(ctx, "u0", lo=0, hi=1)]
+        ms = sym_mode_stats(ctx, 1, 1, nu=3.0)
+        sigma = real(ctx, "sigma", lo=0, lo_strict=True, hi=1, hi_strict=True)
+        beta = real(ctx, "beta", lo=0, lo_strict=True, hi=1)
+        l0 = real(ctx, "logl_cur", lo=-lmax, hi=lmax)
+        l1 = real(ctx, "logl_prop", lo=-lmax, hi=lmax)
+        z = real(ctx, "z0")
+        r1 = real(ctx, "urand", lo=0, hi=1, hi_strict=True)
+        draws = iter([("randn", sarr([z])), ("rand", sarr([r1]))])
+        cb = Cb([l1])
+
+        def provider(kind, rec):
+            want, val = next(draws)
+            if want != kind:
+                raise BoundExceeded(f"draw order: expected {want}, code asked for {kind}")
+            return val
+        rfo = RangeFloatOps(ctx)
+        stub = RandomStub(provider, max_calls=2)
+        proxy = NpProxy(random=stub, object_constructors=True, overrides={"nan_to_num": lambda a, nan=0.0, **k: a, "exp": rfo.exp})
+        noadapt = lambda self, c, mean_accept: None
+        sig = lambda self: sarr([sigma])
+        CONFIG["pow_range"] = True
+        try:
+            with patched(mcmc, np=proxy), patched_attr(mcmc.RWMRunner, _adapt_sigma=noadapt, _initialize_sigmas=sig, _check_convergence=lambda self, acc: True):
+                out = mcmc.parallel_mcmc(u=sarr([u]), x=sarr([u]), logl=sarr([l0]), blobs=None, assignments=np.zeros(1, dtype=int), beta=beta, mode_stats=ms,
+                                         log_likelihood=cb.log_likelihood, prior_transform=cb.prior_transform, n_steps=1, n_max=1, sample="rwm", verbose=False)
+        except BoundExceeded:
+            return None
+        finally:
+            CONFIG["pow_range"] = False
+        alpha = scalar(out[5])
+        if isinstance(alpha, float):
+            ctx.check("acceptance-probability-is-a-number-in-[0,1]", z3.BoolVal(alpha == alpha and 0.0 <= alpha <= 1.0), detail=alpha)
+            alpha = SymReal.const(Fraction(alpha)) if alpha == alpha and abs(alpha) != float("inf") else None
+        else:
+            alpha = SymReal.lift(alpha)
+            ctx.check("acceptance-probability-is-a-number-in-[0,1]", z3.And(le(0, alpha), le(alpha, 1)))
+        discarded = all(a is b for a, b in zip(cb.proposals[0], u))
+        if alpha is not None and not discarded:
+            # representable probability: beta * (l1 - l0) >= -700  =>  alpha > 0
+            ctx.check("representable-acceptance-probability-is-not-flushed-to-zero",
+                      z3.Implies((beta * (l1 - l0) >= -700).z, lt(0, alpha)))
+        return None
+
+    def replay(m, label, v):
+        from vf.engine.util import scripted_random
+        vals = {k: float(x) for k, x in m.items() if not isinstance(x, (bool, str))}
+        cands = [(vals.get("beta", 0.5), vals.get("logl_cur", 0.0), vals.get("logl_prop", -1000.0))] + [(1e-3, 0.0, -4000.0), (0.5, 0.0, -1000.0), (0.01, -5000.0, -9000.0), (1.0, 0.0, -600.0)]
+        for beta, lc, lp in cands:
+            if not (0 < beta <= 1):
+                continue
+            ms = ModeStatistics(np.array([[0.5]]), np.array([[[0.04]]]), np.array([3.0]))
+            with scripted_random(randn=lambda *a: np.array([0.1]), rand=lambda *a: np.array([0.999])), np.errstate(all="ignore"), \
+                    patched_attr(mcmc.RWMRunner, _initialize_sigmas=lambda self: np.array([0.5]), _adapt_sigma=lambda self, c, a_: None):
+                out = mcmc.parallel_mcmc(u=np.array([[0.5]]), x=np.array([[0.5]]), logl=np.array([lc]), blobs=None, assignments=np.zeros(1, dtype=int), beta=beta, mode_stats=ms,
+                                         log_likelihood=lambda x: (np.array([lp]), None), prior_transform=lambda q: q, n_steps=1, n_max=1, sample="rwm", verbose=False)
+            alpha = float(out[5])
+            exact = min(1.0, math.exp(max(beta * (lp - lc), -745.0)))
+            bad = (alpha != alpha) or alpha < 0 or alpha > 1 or (beta * (lp - lc) >= -700 and alpha == 0.0) or abs(alpha - exact) > 1e-9 * max(exact, 1e-300) + 1e-300
+            if bad:
+                return {"reproduced": True, "signature": "rwm:acceptance-probability-loses-magnitude", "payload": {"beta": beta, "logl_cur": lc, "logl_prop": lp, "code_alpha": alpha, "exact_alpha": exact},
+                        "what": f"rwm step at beta={beta} from logL={lc} to logL={lp}: acceptance probability {alpha!r}, exp(beta*dlogL) = {exact!r}"}
+        return {"reproduced": False, "what": "acceptance probabilities of large log-likelihood drops at small beta are exp(beta*dlogL)"}
+
+    return Obligation("rwm-acceptance-magnitudes", harness, replay=replay, encodes=[mcmc.BaseMCMCRunner.run, mcmc.RWMRunner._compute_acceptance_factor],
+                      bounds=f"one RWM step, d=1, log-likelihoods in [-{lmax}, {lmax}], beta in (0,1]",
+                      stubs=["np.exp -> range abstraction of the double-precision exponential (0 below -745.1, inf above 709.7)", "x**y (symbolic y) -> 0 iff x == 0, else positive",
+                             "np.random.* -> symbolic draws"], theory="QF_NRA", timeout_ms=20000, max_paths=2000)
+
+
 def _norm_pdf(x, m, s):
     return math.exp(-0.5 * ((x - m) / s) ** 2) / (s * math.sqrt(2 * math.pi))
 
@@ -787,7 +864,7 @@ def obligations(tier):
            make_kernel("rwm", 1, "periodic", H), make_kernel("rwm", 1, "reflective", 1), make_kernel("tpcn", 1, "periodic", 1),
            make_propose_only(1501), make_modestats(1), make_modestats(2), make_kernel("tpcn", 2, "interior", 1),
            make_composition("tpcn", 1, 0), make_composition("rwm", 2, 1), make_composition("tpcn", 2, 0),
-           make_kernel("tpcn", 1, "interior", H, K=2, mode=1)]
+           make_kernel("tpcn", 1, "interior", H, K=2, mode=1), make_acceptance_range()]
     if tier == "thorough":
         # (tpCN on a reflective coordinate is not enumerated: the parity forks exhaust the budget; its known finding is the
         #  same defect as on periodic coordinates, which the quick tier reports)
